@@ -18,6 +18,11 @@ CFG = {
         "Leptos.RView.C04_dropped_error_unregisters",
         "Leptos.RView.C04_errb_render",
         "Leptos.RView.bump_val",
+        "Leptos.SView.C04_suspense_loaded",
+        "Leptos.SView.C04_transition_once",
+        "Leptos.SView.C04_suspense_pending",
+        "Leptos.SView.eval_agree",
+        "Leptos.SView.run_ok",
         "Leptos.RView.C04_untouched_nodes",
         "Leptos.RView.C04_show_no_rerender_same_branch",
         "Leptos.RView.C04_disposed_stays_empty",
@@ -134,8 +139,10 @@ CFG = {
         "as a function of the signals, the state of every resource — fetch in flight / value of the last fetch that settled / written again meanwhile / signals tracked so far (an AsyncDerived "
         "never clears its sources) — and, per <Transition>, whether its first pending episode is over (SuspenseBoundary<true>: `nth_run < 2`)): a boundary shows its fallback iff a live Suspend "
         "below it (not below a boundary of its own) awaits a loading resource; a Transition only during its first such episode, afterwards every leaf keeps what it last resolved to. The poll-by-poll "
-        "behaviour of AsyncDerived / Suspend / EitherKeepAlive is NOT modelled here (C10 models the derived; the harness's fresh-mount oracle checks the rest on the real code). CORRESPONDENCE ONLY + the "
-        "fresh-mount oracle; class restrictions in `assumptions`",
+        "behaviour of AsyncDerived / Suspend / EitherKeepAlive is NOT modelled here (C10 models the derived; the harness's fresh-mount oracle checks the rest on the real code). Proved about this model "
+        "(Proofs/SViewLoaded.lean): C04_suspense_loaded (every history of writes and completions — overlapping, superseded, any order —: whenever no fetch is in flight the DOM has no fallback in it and every "
+        "leaf shows what its fetcher gives for the CURRENT signals; invariant ResOK + eval_agree: a write to a signal a fetch did not read changes neither its value nor its reads), C04_transition_once (a "
+        "Transition's first pending episode, once over, is over for good), C04_suspense_pending; that the real code shows what the model says is correspondence + the fresh-mount oracle; class restrictions in `assumptions`",
         "not exercised: OwnedView contexts, hydration",
     ],
     "assumptions": [
